@@ -29,7 +29,8 @@ impl OutputFormat for PCBoard {
         let mut result = Vec::new();
         let mut last_attr = TextAttribute::default();
         let mut pos = Position::default();
-        let height = buf.get_line_count();
+        // rows that are allocated below the canvas (a layer can hold more lines than the buffer is high) are not part of the picture
+        let height = buf.get_line_count().min(buf.get_height());
         let mut first_char = true;
 
         match options.screen_preparation {
